@@ -83,7 +83,10 @@ def _build(coll, paths):
 
     graph.Builder.recording = recording
     try:
-        return c01.build(coll, graph.Fixed(True), 2, dict(c01.RICH))
+        # minimal leaves, full structure: only the recordings' paths matter here
+        g = dict(c01.RICH)
+        g.update(rich2=False, rec1_rich=False)
+        return c01.build(coll, graph.Fixed(False), 2, g)
     finally:
         graph.Builder.recording = orig
 
